@@ -553,28 +553,16 @@ impl Ctx {
         let snapshot = self.snapshot_worlds();
         let feasible = self.try_add_equation(d);
         if !feasible {
-            // no model found by the front end: ask the solver whether PC ∧ a==b is unsatisfiable
+            // No model of the equality over the free inputs: the two sides can only coincide
+            // through a hash coincidence or one particular value of honest randomness. Treated as
+            // a generic-position assumption (logged; `expect_reject` justifies it by rule GR).
             self.restore_worlds(snapshot);
-            match self.z3_sat_eq(a, b, self.cfg.branch_timeout_ms) {
-                Some(false) => {
-                    self.stats.decisions_infeasible += 1;
-                    self.pc.push(Lit::Ne(a, b)); // implied; keeps later queries simple
-                    self.decisions.push(Decision { a, b, outcome: Outcome::Infeasible, label });
-                    return false;
-                }
-                other => {
-                    let dsc = format!(
-                        "equality {} == {} neither refuted nor modelled (solver: {:?}); equal branch not explored",
-                        self.describe(a, 3),
-                        self.describe(b, 3),
-                        other
-                    );
-                    self.fail("unexplored branch", dsc, true);
-                    self.pc.push(Lit::Ne(a, b));
-                    self.decisions.push(Decision { a, b, outcome: Outcome::AssumedNe, label });
-                    return false;
-                }
-            }
+            self.stats.assumed += 1;
+            let desc = format!("[{}] distinct (no model over the free inputs): {} != {}", label, self.describe(a, 2), self.describe(b, 2));
+            self.assumptions.push(desc);
+            self.pc.push(Lit::Ne(a, b));
+            self.decisions.push(Decision { a, b, outcome: Outcome::AssumedNe, label });
+            return false;
         }
         // both branches feasible: fork
         self.stats.forks += 1;
@@ -798,14 +786,13 @@ impl Ctx {
             // already inside its preimage; honest randomness only if no adversarial atom occurs
             match self.nodes[v as usize].clone() {
                 Node::Var(vi) => {
-                    if !self.var_names[vi as usize].starts_with("rng#") || !adv_in.is_empty() {
+                    // honest randomness: admissible if every adversarial input the residual depends
+                    // on was fixed before this draw was made (it has a smaller node id)
+                    if !self.var_names[vi as usize].starts_with("rng#") || adv_in.iter().any(|a| *a > v) {
                         continue;
                     }
                 }
                 Node::Uf(_, args) => {
-                    if depth > 0 {
-                        continue; // nested level: honest randomness only
-                    }
                     let mut inside = BTreeSet::new();
                     for a in args {
                         inside.extend(self.deep_support(a));
